@@ -449,6 +449,8 @@ class Block:
             return 0
         exponent = self.bits[0]
         coefficient = int.from_bytes(b'\x00' + self.bits[1:], 'big')
+        if exponent < 3:
+            return coefficient >> (8 * (3 - exponent))
         return coefficient * 256 ** (exponent - 3)
 
     @property
